@@ -347,7 +347,31 @@ func (x *exec) mergeStates(states []*State) *State {
 				}
 			}
 			if !same {
-				delete(f.names, n)
+				// the values differ: reuse the merged value of an SSA value that mirrors the
+				// name in every state (typically the phi of the variable), else merge afresh
+				found := false
+				for v, mv := range f.env {
+					match := true
+					for si, s := range states {
+						ev, has := s.frames[fi].env[v]
+						if !has || valKey(ev) != valKey(vals[si]) {
+							match = false
+							break
+						}
+					}
+					if match {
+						f.names[n] = mv
+						found = true
+						break
+					}
+				}
+				if !found {
+					if mv, can := x.mergeVals(g, vals); can {
+						f.names[n] = mv
+					} else {
+						delete(f.names, n)
+					}
+				}
 			}
 		}
 		// deferred calls: same call sites (part of the context key); merge their arguments
